@@ -17,6 +17,8 @@ FORMATS = {"FORMAT_FA": "fasta", "FORMAT_MSF": "msf", "FORMAT_CLU": "clu"}
 
 
 def describe(ck):
+    ck.rule("R06i", "the effect summary of kalign_write_msa shows no store into rows, names or gap counts of the msa it writes")
+    ck.rule("R06j", "every string write_msa_msf formats into a line is a literal, a sequence name, a strftime date without '/' or the base name from tlfilename - not a caller-supplied path")
     ck.rule("R06h", "the test that makes a block line the next row of read_clu / read_msf is equivalent to `first character is not a blank` for every byte value")
     ck.rule("R06a", "for each format: every token the reader searches for is a substring of a literal the writer of that format emits, and no detection token of format X occurs in a writer literal of format Y")
     ck.rule("R06b", "every copy into msa_seq.name in a reader is bounded by the buffer it writes into (MSA_NAME_LEN-1 guard or allocation size = copy length)")
@@ -283,6 +285,96 @@ def r06h(ck, prog):
     ck.floor("R06h", n, 2, "row tests of the block readers")
 
 
+def r06i(ck, prog):
+    """writing does not change what is written: the interprocedural effect summary of kalign_write_msa on its msa shows no
+    store into the rows (sequences.seq), the names or the gap counts - a helper that normalises a row in place (upper-casing
+    it for a checksum, say) would change the alignment in memory and every file written afterwards"""
+    from ..effects import Effects
+    E = Effects(prog)
+    W = prog.fn("kalign_write_msa")
+    idx = next((i for i, p_ in enumerate(W.params) if p_["ty"].replace("const ", "").replace(" ", "") == "structmsa*"), None)
+    if idx is None:
+        raise AnalysisBroken("R06i slot: kalign_write_msa has no struct msa* parameter")
+    S = E.of_param("kalign_write_msa", idx)
+    if S.unknown:
+        raise AnalysisBroken("R06i: effect summary of kalign_write_msa is incomplete: %s" % S.unknown[0])
+    touched = sorted(p_ for p_ in S.pwrites | S.writes if p_[:1] == ("sequences",))
+    ck.inst("R06i", site(prog, W, "effects"), "kalign_write_msa writes under msa->sequences: %s" % ([".".join(p_) for p_ in touched] or "nothing"), prog.config)
+    for p_ in touched:
+        if p_[-1] in ("seq", "name", "gaps", "s", "len"):
+            ck.violation("R06i", "R06i/kalign_write_msa/%s" % ".".join(p_), site(prog, W, "effects"),
+                         "writing an alignment stores into msa->%s (through a function the writers call): the alignment in memory is no "
+                         "longer the one that was aligned, and every format written from it differs from the input in those characters" % ".".join(p_),
+                         prog.config)
+
+
+def r06j(ck, prog):
+    """nothing printed into the MSF header can be taken for the '//' divider by read_msf: every string (%s) that write_msa_msf
+    formats into a line is a literal without '//', a sequence name, the date written by strftime from a literal format without
+    '/', or the base name produced by tlfilename (which keeps only what follows the last '/') - never a path as the caller
+    gave it"""
+    F = prog.fn("write_msa_msf")
+    n = 0
+
+    def classify(a, depth=0):
+        a0 = a.strip(casts=True)
+        if a0.k == "ConditionalOperator":
+            r = [classify(a0.child("then"), depth), classify(a0.child("else"), depth)]
+            return next((x for x in r if x[0] != "ok"), r[0])
+        if a0.k == "StringLiteral":
+            return ("ok", "literal") if "//" not in a0.d.get("s", "") else ("bad", "the literal %r" % a0.d.get("s"))
+        if any(m.d.get("field") == "name" and m.d.get("rec") == "msa_seq" for m in a0.walk() if m.k == "MemberExpr"):
+            return ("ok", "sequence name")
+        if any(m.d.get("field") == "line" for m in a0.walk() if m.k == "MemberExpr"):
+            return ("ok", "a finished line")
+        if a0.k == "DeclRefExpr" and a0.d.get("dk") == "Parm":
+            return ("bad", "the parameter %s as the caller gave it" % a0.d["name"])
+        if a0.k == "DeclRefExpr" and a0.d.get("dk") == "Var":
+            did = a0.d["did"]
+            for c in F.body.calls("tlfilename"):
+                if any(x.k == "DeclRefExpr" and x.d.get("did") == did for x in c.args[-1].walk()):
+                    return ("ok", "base name from tlfilename")
+            for c in F.body.calls("strftime"):
+                if c.args and any(x.k == "DeclRefExpr" and x.d.get("did") == did for x in c.args[0].walk()):
+                    fmt = next((x.strip(casts=True).d.get("s", "") for x in c.args if x.strip(casts=True).k == "StringLiteral"), None)
+                    return ("ok", "date from strftime") if fmt is not None and "/" not in fmt and "%D" not in fmt and "%x" not in fmt else ("bad", "a date whose format can contain '/'")
+            if depth < 2:
+                defs = [d for d, _ in local_defs(F, did) if d is not None and not (d.strip(casts=True).cv == 0 or "NULL" in "".join(d.strip(casts=True).mac))]
+                if defs:
+                    rs = [classify(d, depth + 1) for d in defs]
+                    return next((x for x in rs if x[0] != "ok"), rs[0])
+        return ("unknown", a0.text()[:30])
+    import re as _re
+    for c in F.body.calls():
+        fi = next((i for i, a in enumerate(c.args) if a.strip(casts=True).k == "StringLiteral" and "%" in a.strip(casts=True).d.get("s", "")), None)
+        if fi is None or not (c.callee in ("snprintf", "fprintf", "sprintf") or _printf_like(prog, c, c.args[fi])):
+            continue
+        if c.callee == "fprintf" and any(x.strip(casts=True).text() == "stderr" for x in c.args[:1]):
+            continue
+        fmt = c.args[fi].strip(casts=True).d["s"]
+        argi = 0
+        for m in _re.finditer(r"%([-+ #0]*)(\*|\d+)?(?:\.(\*|\d+))?(hh|h|ll|l|L|z|j|t)?([diouxXeEfFgGaAcspn%])", fmt):
+            if m.group(5) == "%":
+                continue
+            argi += (m.group(2) == "*") + (m.group(3) == "*")
+            val = c.args[fi + 1 + argi] if fi + 1 + argi < len(c.args) else None
+            argi += 1
+            if m.group(5) != "s" or val is None:
+                continue
+            n += 1
+            kind, what = classify(val)
+            where = site(prog, c, "%s")
+            ck.inst("R06j", where, "write_msa_msf formats %s into a line: %s" % (val.text()[:40], what), prog.config)
+            if kind == "bad":
+                ck.violation("R06j", "R06j/write_msa_msf/%s" % _re.sub(r"\W+", "-", what)[:30], where,
+                             "write_msa_msf prints %s into a line of the file: if it contains '//' (an output directory given with a "
+                             "trailing slash is enough) read_msf takes that line for the divider, registers no names and cannot read the "
+                             "file back" % what, prog.config)
+            elif kind == "unknown":
+                raise AnalysisBroken("R06j: where the string %s printed by write_msa_msf comes from is not understood" % what)
+    ck.floor("R06j", n, 3, "strings formatted into MSF lines")
+
+
 def r06b(ck, prog):
     lim = prog.macro_int("MSA_NAME_LEN")
     n = 0
@@ -423,6 +515,8 @@ def run(ck, progs):
         ck.attempt(r06b, ck, prog)
         ck.attempt(r06c, ck, prog)
         ck.attempt(r06h, ck, prog)
+        ck.attempt(r06i, ck, prog)
+        ck.attempt(r06j, ck, prog)
         from . import c15
         before = len(ck.instances)
         ck.attempt(c15.r15e, ck, prog)
